@@ -16,6 +16,9 @@ across several brokers sharing etcd, snapshot watch refreshes, and operator publ
                        that topic ⇒ covered in every later state.
 * `refreshed_view`     after a watch refresh an idle broker's `Metadata()` equals the etcd snapshot.
 * `lost_update_old`, `watch_race_old`, `operator_shrinks_old`   witnesses on the pre-fix model.
+* `late_notification_seeded`  witness: a watcher that applies the (possibly outdated) payload of a
+                       notification without `persistMu` loses an acknowledged topic; `acked_persist`
+                       covers the code's watcher for deliveries of ANY past notification at ANY point.
 -/
 namespace KafVerif.Snapshot
 
@@ -295,6 +298,17 @@ theorem good_step {s : State} (hg : Good s) (st : Step) : Good (step merge s st)
       · subst hc; simp [upd_same] at hp
       · simp only [upd_other _ _ hc] at hp ⊢
         exact hb c r o a hp
+  | deliver b r =>
+    simp only [step]
+    split
+    · exact hg
+    · obtain ⟨hinv, hb, ho⟩ := hg
+      refine ⟨hinv, ?_, ho⟩
+      intro c r o a hp
+      by_cases hc : c = b
+      · subst hc; simp [upd_same] at hp
+      · simp only [upd_other _ _ hc] at hp ⊢
+        exact hb c r o a hp
   | opGet crd =>
     simp only [step]
     split
@@ -379,6 +393,7 @@ theorem acked_step_mono {s : State} {st : Step} {e : Nat × Nat} (he : e ∈ s.a
         · simp only [beginB]; split <;> exact he
         · exact he
   | watch b => simp only [step]; split <;> exact he
+  | deliver b r => simp only [step]; split <;> exact he
   | opGet crd => simp only [step]; split <;> exact he
   | opTxn =>
     simp only [step]
@@ -453,6 +468,30 @@ the operator with the resource's 1 partition. -/
 theorem _root_.KafVerif.C21.operator_shrinks_old :
     invB (run mergeOld (init loc0)
       [.begin 0 (.create 1 1), .commit 0, .begin 0 (.grow 1 3), .commit 0, .opGet [(1, 1)], .opTxn]) = false := by
+  decide
+
+/-- **A watcher that applies the notification's payload without the lock (seeded variant).**
+Broker 0 creates topic 1 (write 0), broker 1 creates topic 2 with 2 partitions (write 1, acknowledged);
+broker 0 deletes topic 1: fresh read, local delete — then its lagging watch stream hands it the
+notification of write 0, which replaces the local copy; the revision compare still succeeds and the
+stale copy is written back: topic 2 is gone (and topic 1 is back). -/
+theorem _root_.KafVerif.C21.late_notification_seeded :
+    invB (runSeeded merge (init loc0)
+      [.begin 0 (.create 1 1), .commit 0, .begin 1 (.create 2 2), .commit 1,
+       .begin 0 (.delete 1), .deliver 0 0, .commit 0]) = false ∧
+    (runSeeded merge (init loc0)
+      [.begin 0 (.create 1 1), .commit 0, .begin 1 (.create 2 2), .commit 1,
+       .begin 0 (.delete 1), .deliver 0 0, .commit 0]).etcd = some [(1, 1)] := by
+  decide
+
+/-- The code's watcher (re-read under `persistMu`) on the same schedule: the delivery waits, the
+invariant holds and only the deleted topic is gone. -/
+example : invB (run merge (init loc0)
+      [.begin 0 (.create 1 1), .commit 0, .begin 1 (.create 2 2), .commit 1,
+       .begin 0 (.delete 1), .deliver 0 0, .commit 0, .deliver 0 0]) = true ∧
+    (run merge (init loc0)
+      [.begin 0 (.create 1 1), .commit 0, .begin 1 (.create 2 2), .commit 1,
+       .begin 0 (.delete 1), .deliver 0 0, .commit 0, .deliver 0 0]).etcd = some [(2, 2)] := by
   decide
 
 /-- The same three schedules on the fixed model keep the invariant (executable check; the general
